@@ -10,6 +10,16 @@ META = {
 }
 
 
+def interrupted(h):
+    """the history contains a killed build or a failing body"""
+    for op in h["ops"]:
+        if op["op"] == "build" and (op.get("fail") or (op.get("obs") or {}).get("kind") in ("crash", "crash-load", "died")):
+            return True
+    return False
+
+
 def run(ctx):
-    run_engine(ctx, "C03", "Build/Props_C03.v", ["C03 ", "load failed", "child-died"], 3,
+    # "the next build converges to the outputs an uninterrupted build would have produced": the from-scratch comparison
+    # (oracle "C01 stale") belongs to C03 too on histories that contain a killed build or a failing body
+    run_engine(ctx, "C03", "Build/Props_C03.v", ["C03 ", "load failed", "child-died", ("C01 stale", interrupted)], 3,
                'Oracle: builds are killed at a random persistence hook (record mkdir/create/write/close/rename, body start/end, index write); the state must load and the next build must converge to a from-scratch build.')
